@@ -87,6 +87,15 @@ Example C04_ex_reject :
   parse toy_pf toy_pf [49;50;56;98] = None /\ parse toy_pf toy_pf [91;49;44;50;98;93] = None.
 Proof. split; vm_compute; reflexivity. Qed.
 
+(* ---- tie to the source: Gen/Funcs.v is TRANSLATED from the Go code by tools/gotrans on every run *)
+From GoMC Require Gen.Funcs Proofs.C04_tie.
+Theorem C04_is_ws_translated : forall c : N, Funcs.nbt_isSpace (Z.of_N c) = is_ws c.
+Proof. exact C04_tie.tie_isSpace. Qed.
+Theorem C04_is_digit_translated : forall c : N, Funcs.nbt_isNumber (Z.of_N c) = is_digit c.
+Proof. exact C04_tie.tie_isNumber. Qed.
+Theorem C04_is_bare_translated : forall c : N, Funcs.nbt_isAllowedInUnquotedString (Z.of_N c) = is_bare c.
+Proof. exact C04_tie.tie_isAllowedInUnquotedString. Qed.
+
 Print Assumptions C04_spec_roundtrip.
 Print Assumptions C04_writer_in_L.
 Print Assumptions C04_text_roundtrip.
@@ -94,3 +103,6 @@ Print Assumptions C04_text_injective.
 Print Assumptions C04_parse_sound.
 Print Assumptions C04_wf_implies_wfs.
 Print Assumptions C04_tag_ids.
+Print Assumptions C04_is_ws_translated.
+Print Assumptions C04_is_digit_translated.
+Print Assumptions C04_is_bare_translated.
